@@ -195,20 +195,42 @@ func c06(r *Report) {
 		tests := errTests(v)
 		for _, ret := range returns(cert) {
 			for _, val := range retVals(ret, 0) {
+				mayBeCached := false
 				for _, leaf := range resolveAll(val) {
-					if leaf != cached {
+					if leaf == cached {
+						mayBeCached = true
+					}
+				}
+				if !mayBeCached {
+					continue
+				}
+				// every feasible path on which this return yields the cached value took
+				// Verify's err == nil edge
+				paths, okp := blockPathsUntil(cert.Blocks[0], ret.Block(), 20000)
+				if !okp {
+					ok = false
+					continue
+				}
+				for _, p := range paths {
+					isCached := false
+					for _, leaf := range resolveOnPath(val, p) {
+						if leaf == cached {
+							isCached = true
+						}
+					}
+					if !isCached {
 						continue
 					}
 					n++
-					dom := false
-					for _, t := range tests {
-						for k, s := range t.If.Block().Succs {
-							if s == t.Nil && edgeDominates(t.If.Block(), k, ret.Block()) {
-								dom = true
+					verified := false
+					for i := 0; i+1 < len(p); i++ {
+						for _, t := range tests {
+							if p[i] == t.If.Block() && p[i+1] == t.Nil {
+								verified = true
 							}
 						}
 					}
-					if !dom {
+					if !verified {
 						ok = false
 					}
 				}
